@@ -113,7 +113,7 @@ def onBorder : List Nat → List Int → Bool
 /-- model of `close_holes`: background border pixels are seeded (taken), the flood takes every
     background pixel reachable from them, the result is the complement of what was taken. -/
 def closeHoles (ref : Img Int) (nb : List (List Int)) : Array Bool :=
-  let avail0 : Array Bool := ref.data.map (· == 0)
+  let avail0 : Array Bool := (ref.data.toList.map (· == 0)).toArray
   let seeds := (allPos ref.shape).filter fun p => onBorder ref.shape p && ref.getD p 1 == 0
   let avail1 := seeds.foldl (fun a p => a.setIfInBounds (ravelI ref.shape p) false) avail0
   let avail := flood ref.shape nb (ref.size + 1) avail1 seeds.reverse
@@ -151,12 +151,13 @@ def hmEntries (bshape : List Nat) (bc : Array Int) : List (List Int × Int) :=
     `slack` counter: the margin rule must hold at `x = b/2`, and then `n - b + 1` consecutive
     positions are evaluated. For odd `b` this is the margin rule again. -/
 def hmEvaluated : List Nat → List Nat → List Int → Bool
-  | [n], [b], [x] =>
-    let c : Int := (b / 2 : Nat)
-    decide (min c ((n : Int) - c - 1) ≥ c) && decide (c ≤ x) && decide (x < c + ((n : Int) - (b : Int) + 1))
   | n :: ns, b :: bs, x :: xs =>
     let c : Int := (b / 2 : Nat)
-    decide (min x ((n : Int) - x - 1) ≥ c) && hmEvaluated ns bs xs
+    if ns.isEmpty then
+      bs.isEmpty && xs.isEmpty &&
+      decide (min c ((n : Int) - c - 1) ≥ c) && decide (c ≤ x) && decide (x < c + ((n : Int) - (b : Int) + 1))
+    else
+      decide (min x ((n : Int) - x - 1) ≥ c) && hmEvaluated ns bs xs
   | _, _, _ => false
 
 /-- model of `hitmiss<T>` at one pixel, the entries tested in the given order. -/
